@@ -10,6 +10,7 @@ incremented exactly once, in sequence order, nothing at or beyond `last`), and t
 range gives (`xs ++ values`); after a throw the events are a prefix ending in the dereference whose element failed.
 -/
 import SvModel.Proofs.InputRange
+import SvModel.Proofs.InputAssign
 import SvModel.Proofs.Examples
 import SvModel.Spec.L0
 
@@ -112,5 +113,30 @@ theorem streamEvs_count (sid p n q : Nat) :
 example : (match appendRangeInput Ex.cfgT 0 true 7 0 [10, 11, 12] Ex.w0 with
            | .ok r w' => r == 2 && iterEvs w'.trace == [.deref 7 0, .incr 7 0, .deref 7 1, .incr 7 1, .deref 7 2, .incr 7 2]
            | .thrown _ _ => false) = true := by decide +kernel
+
+/-- assign (first, last) with input iterators, on return: every position dereferenced once then incremented once, in
+    order, nothing at or beyond `last`; the contents are the range's values — whatever the container held and whatever its
+    size was (shorter, equal or longer than the range) -/
+theorem assign_stream_once (cfg : Cfg) (c sid : Nat) (vs : List α) (w w' : World α) (u : Unit)
+    (hv : VecOK cfg w c) (hl : Ledger w) (hN : (w.hdr c).N ≤ cfg.maxSize)
+    (hpol : movesFor cfg true = true → cfg.tMove = false)
+    (hr : assignWithRangeInput cfg c sid vs w = .ok u w') :
+    iterEvs w'.trace = iterEvs w.trace ++ streamEvs sid 0 vs.length ∧
+    (∀ xs, Holds w c xs → Holds w' c (L0.assignRange (vs.map Val.val))) ∧ VecOK cfg w' c ∧ Ledger w' := by
+  have h := assignWithRangeInput_sat cfg c sid vs w hv hl hN hpol
+  rw [hr] at h
+  exact ⟨h.2.2, fun xs hx => h.2.1 xs hx, h.1.vec, h.1.led⟩
+
+/-- … after a throw: a valid container, and the iterator was advanced over exactly the elements already consumed, the
+    failing element having been dereferenced once -/
+theorem assign_stream_prefix_on_throw (cfg : Cfg) (c sid : Nat) (vs : List α) (w w' : World α) (e : Exc)
+    (hv : VecOK cfg w c) (hl : Ledger w) (hN : (w.hdr c).N ≤ cfg.maxSize)
+    (hpol : movesFor cfg true = true → cfg.tMove = false)
+    (hr : assignWithRangeInput cfg c sid vs w = .thrown e w') :
+    VecOK cfg w' c ∧ Ledger w' ∧ ∃ k, k < vs.length ∧
+      iterEvs w'.trace = iterEvs w.trace ++ streamEvs sid 0 k ++ [.deref sid k] := by
+  have h := assignWithRangeInput_sat cfg c sid vs w hv hl hN hpol
+  rw [hr] at h
+  exact ⟨h.1.vec, h.1.led, h.2⟩
 
 end SvModel.C15
